@@ -395,13 +395,16 @@ func (e *c09Env) ruleWebseedOwner() {
 	pick := c.Func(c09PP, "(*PiecePicker).PickWebseed")
 	closeWS := c.Func(c09PP, "(*PiecePicker).CloseWebseedDownloader")
 	stopAt := c.Func(c09PP, "(*PiecePicker).WebseedStopAt")
+	// the three owners, and the helpers that exist only as a part of one of
+	// them (every use is a plain call from the owner or from such a helper)
+	pickOwned, closeOwned, stopOwned := c09OwnedBy(c, pick), c09OwnedBy(c, closeWS), c09OwnedBy(c, stopAt)
 	set, cleared := 0, 0
 	for _, s := range fieldStores(c, e.fReqWebseed) {
 		val := kit.Canon(s.Val)
 		if val.IsNil() {
 			cleared++
 			key := e.k.key(s.Fn, "clear myPiece.RequestedWebseed")
-			if s.Fn == closeWS || s.Fn == stopAt {
+			if closeOwned[s.Fn] || stopOwned[s.Fn] {
 				c.Present("R09.6", key, posOf(s.Store), "ownership released in %s", c09ShortName(s.Fn))
 			} else {
 				c.Bad("R09.6", key, posOf(s.Store), "RequestedWebseed cleared in %s: a piece leaves its web-seed range outside CloseWebseedDownloader/WebseedStopAt", kit.FuncName(s.Fn))
@@ -410,7 +413,7 @@ func (e *c09Env) ruleWebseedOwner() {
 		}
 		set++
 		key := e.k.key(s.Fn, "set myPiece.RequestedWebseed")
-		if s.Fn != pick {
+		if !pickOwned[s.Fn] {
 			c.Bad("R09.6", key, posOf(s.Store), "RequestedWebseed assigned in %s: only PickWebseed hands pieces to a web seed", kit.FuncName(s.Fn))
 			continue
 		}
